@@ -219,7 +219,9 @@ CHECKS = {
          "callsigns/ports/kinds, the accept path, bursts, malformed frames; AgwpePropsTrace.tla judges stream equality, frame "
          "well-formedness, payload concatenation, the X, C/v, Y, d exchanges, API results and crashes; AgwpeTrace.tla validates the "
          "library's own debug log (frames read, frames dropped) plus the application's Read calls against the pipeline of Agwpe.tla "
-         "with inferred silent steps, so that a loss counts as the known drop-when-full finding only if the logged drops explain it.",
+         "with inferred silent steps, so that a loss counts as the known drop-when-full finding only if the logged drops explain it; AgwpeTx.tla models the "
+         "transmit side (Y polling before and after each D frame, Flush) and AgwpeTxTrace.tla validates the TNC's view of D frames and "
+         "Y polls merged with the Write / Flush calls against it.",
     note="Internal goroutine interleavings of the library are not controlled (no gates); paced schedules stay inside the envelope. "
          "Frame loss on bursts is a recorded known finding (design-level flow control). Real-time polls make each schedule cost seconds.",
     technique="TLA+ pipeline model (design, envelope) + simulated TNC schedules on real code judged by TLC trace validation",
